@@ -292,32 +292,6 @@ func (v *JV) Depth() int {
 
 // --- input classifiers (named predicates over the input content) ---------
 
-// HasSurvivingFFFD: a string value, or a key of a member whose value is not
-// null, contains U+FFFD (members with null values are dropped before their key
-// is encoded).
-func HasSurvivingFFFD(v *JV) bool {
-	switch v.K {
-	case Str:
-		return strings.ContainsRune(v.S, 0xFFFD)
-	case Arr:
-		for _, x := range v.A {
-			if HasSurvivingFFFD(x) {
-				return true
-			}
-		}
-	case Obj:
-		for _, m := range v.M {
-			if m.V.K == Null {
-				continue
-			}
-			if strings.ContainsRune(m.K, 0xFFFD) || HasSurvivingFFFD(m.V) {
-				return true
-			}
-		}
-	}
-	return false
-}
-
 // HasBig: a number beyond float64 occurs.
 func HasBig(v *JV) bool {
 	r := false
